@@ -48,6 +48,8 @@ func (r *FnRun) constString(s string) SliceV {
 		r.addFact(tb.Eq(tb.Select(r.rootEntry().BH, sv.Base), content))
 		r.addFact(tb.Select(r.rootEntry().BA, sv.Base))
 		r.addFact(tb.Ne(sv.Base, tb.BVI(64, 0)))
+		r.addFact(tb.App("rodata", BoolSort, sv.Base)) // string constants live in read-only memory
+		r.addFact(tb.Not(tb.App("cowned", BoolSort, sv.Base)))
 		for i := 0; i < len(s) && i < 128; i++ {
 			r.addFact(tb.Eq(tb.Select(content, tb.BVI(64, int64(i))), tb.BVI(8, int64(s[i]))))
 		}
@@ -128,7 +130,9 @@ func (r *FnRun) execInstr(st *State, ins ssa.Instruction, in map[*ssa.BasicBlock
 			if _, isS := ft.Underlying().(*types.Struct); isS {
 				r.vals[x] = PtrV{Kind: PObj, Addr: tb.Add(base.Addr, tb.BVI(64, off)), T: ft}
 			} else if n, isBA := isByteArray(ft); isBA {
-				r.vals[x] = PtrV{Kind: PByteObj, Base: tb.App("fobj:"+fieldKey(stt, x.Field), BV64, base.Addr), N: n, T: ft}
+				fb := tb.App("fobj:"+fieldKey(stt, x.Field), BV64, base.Addr)
+				r.fobjFacts(fb, base.Addr)
+				r.vals[x] = PtrV{Kind: PByteObj, Base: fb, N: n, T: ft}
 			} else {
 				r.vals[x] = PtrV{Kind: PField, Addr: base.Addr, ST: su, STN: structKey(stt), Idx: x.Field, T: ft}
 			}
@@ -365,6 +369,9 @@ func (r *FnRun) freshBase(st *State, base *Term) {
 	tb := r.tb()
 	r.addFact(tb.Ne(base, tb.BVI(64, 0)))
 	r.addFact(tb.Implies(st.PC, tb.Not(tb.Select(st.BA, base))))
+	// objects allocated by the verified code never belong to a compressor's private buffers
+	r.addFact(tb.Not(tb.App("cowned", BoolSort, base)))
+	r.addFact(tb.Not(tb.App("rodata", BoolSort, base)))
 	st.BA = tb.Store(st.BA, base, tb.True())
 }
 
@@ -536,6 +543,22 @@ func (r *FnRun) execSlice(st *State, x *ssa.Slice) {
 		r.vals[x] = PSlice{Ptr: tb.Add(xv.Ptr, tb.Mul(lo, tb.BVI(64, sz))), Len: tb.Sub(hi, lo), Cap: tb.Sub(xv.Cap, lo), Elem: xv.Elem}
 	case PtrV, Scalar:
 		p := r.asPtr(xv, x.X.Type())
+		if p.Kind == PGlobal && len(p.Path) == 0 {
+			if n, ok := isByteArray(p.T); ok {
+				// package-level byte array (immutable after init): a byte object with the global's stable content
+				gb := tb.App("gobj:"+p.Glob.String(), BV64)
+				key := "gobjfact:" + p.Glob.String()
+				if r.root.counters[key] == 0 {
+					r.root.counters[key] = 1
+					av := r.e.globalVal(p.Glob, nil, p.T).(ArrV)
+					r.addFact(tb.Eq(tb.Select(r.rootEntry().BH, gb), av.Arr))
+					r.addFact(tb.Select(r.rootEntry().BA, gb))
+					r.addFact(tb.Ne(gb, tb.BVI(64, 0)))
+					r.addFact(tb.Not(tb.App("cowned", BoolSort, gb)))
+				}
+				p = PtrV{Kind: PByteObj, Base: gb, N: n, T: p.T}
+			}
+		}
 		if p.Kind == PObj {
 			if at, ok := p.T.Underlying().(*types.Array); ok {
 				n := tb.BVI(64, at.Len())
@@ -587,3 +610,15 @@ func (r *FnRun) execMakeSlice(st *State, x *ssa.MakeSlice) {
 
 // allocBound: hook for C06 allocation bounds (filled in by contract 'bounded_by'); default none.
 func (r *FnRun) allocBound(st *State, n *Term, pos token.Pos, what string) {}
+
+// fobjFacts: the byte object embedded in a struct that existed at function entry is an allocated, non-nil object
+// that does not belong to a compressor.
+func (r *FnRun) fobjFacts(fb, structAddr *Term) {
+	tb := r.tb()
+	r.addFact(tb.Ne(fb, tb.BVI(64, 0)))
+	r.addFact(tb.Not(tb.App("cowned", BoolSort, fb)))
+	if structAddr.Op == "var" && r.isFreshAddr(structAddr) {
+		return
+	}
+	r.addFact(tb.Select(r.rootEntry().BA, fb))
+}
